@@ -37,7 +37,9 @@ FAULTS = ["OSError", "SocketTimeout", "GaiError", "ValueError", "ConnectionRefus
 CONFIGS = [dict(tcp=True, naddr=1), dict(tcp=True, naddr=2), dict(tcp=True, naddr=3), dict(tcp=False),
            dict(tcp=True, naddr=1, tls=True), dict(tcp=True, naddr=2, tls=True, nodelay=True),
            dict(tcp=True, naddr=2, nodelay=True, keepalive=True), dict(tcp=False, keepalive=True),
-           dict(tcp=True, naddr=1, ignore_exc=True), dict(tcp=True, naddr=0)]
+           dict(tcp=True, naddr=1, ignore_exc=True), dict(tcp=True, naddr=0),
+           # timeouts left unset: the I/O timeout (None = block) must still replace the connect timeout, and vice versa
+           dict(tcp=False, ct=3.0, it=None), dict(tcp=True, naddr=2, ct=None, it=7.0), dict(tcp=False, ct=None, it=None)]
 OPS = [((3, b"k", None), b"VALUE k 0 1\r\nv\r\nEND\r\n"), ((0, 0, b"k", b"v", 0, False, None), b"STORED\r\n"),
        ((9, b"k", False), b"DELETED\r\n"), ((0, 0, b"k", b"v", 0, True, None), None),
        ((1, [(b"a", b"1"), (b"b", b"2")], 0, False, None), b"STORED\r\nSTORED\r\n"), ((15,), b"VERSION 1\r\n"),
